@@ -1627,6 +1627,14 @@ func c13RunChildScenario(name string, seed int64) {
 		_, err = cn.Write([]byte("hello"))
 		fmt.Println("Write:", err)
 		fmt.Println("Close:", cn.Close())
+		// whatever Flush made of the malformed answer: closing performs the disconnect exchange
+		time.Sleep(50 * time.Millisecond)
+		fr, _, _ := sim.frames()
+		sawD := false
+		for _, f := range fr {
+			sawD = sawD || f.Kind == 'd'
+		}
+		fmt.Println("TNC-GOT-DISCONNECT:", sawD)
 	case "version-reply-short":
 		sim.onFrame = func(f agwFrame) bool {
 			if f.Kind != 'R' {
@@ -1799,6 +1807,9 @@ func c13Robustness(c *Ctx) {
 		}
 		c.Res.Evaluations++
 		c.Res.Distribution["robustness-child"]++
+		if strings.Contains(r.out, "TNC-GOT-DISCONNECT: false") {
+			c.Violate("C13:close-without-disconnect:"+r.name, "Close returned without sending the disconnect ('d') frame to the TNC: the AX.25 link stays up", map[string]interface{}{"scenario": r.name, "output": trunc(r.out, 1500)})
+		}
 		if r.err != nil || !strings.Contains(r.out, "SCENARIO-DONE") {
 			what := "process did not finish the scenario"
 			if i := strings.Index(r.out, "panic:"); i >= 0 {
